@@ -6,6 +6,7 @@ out = []
 def esc(x):
     return str(x).replace("|", "\\|")
 desc = json.load(open(os.path.join(V, "seeded", "descriptions.json")))
+seed_remarks = json.load(open(os.path.join(V, "seeded", "remarks.json"))) if os.path.exists(os.path.join(V, "seeded", "remarks.json")) else {}
 out.append("### Changes written by independent sub-agents (`seeded/<id>/`: patch.diff, demo/, meta.json)\n")
 out.append("Each was confirmed in a scratch worktree: the demonstration passes on the clean tree, the patch applies and compiles, the 544 baseline tests still pass, the demonstration fails with the patch. `caught by` lists the quick checks that exit 1 on the patched tree.\n")
 out.append("| id | property | change | needs, in order to manifest | confirmed | caught by | not caught by (also run) |")
@@ -18,7 +19,7 @@ for d in sorted(glob.glob(os.path.join(V, "seeded", "C*-*"))):
     caught = [k for k, v in m.get("checks", {}).items() if v.get("caught")]
     missed = [k for k, v in m.get("checks", {}).items() if not v.get("caught")]
     dd = desc.get(sid, {})
-    out.append(f"| {sid} | {m['property']} | {esc(dd.get('change',''))} | {esc(dd.get('needs',''))} | {'yes' if ok else 'NO'} | {', '.join(caught) or '-'} | {', '.join(missed) or ''} |")
+    out.append(f"| {sid} | {m['property']} | {esc(dd.get('change',''))} | {esc(dd.get('needs',''))} | {'yes' if ok else 'NO'} | {', '.join(caught) or '-'} | {', '.join(missed) or ''}{(' - ' + esc(seed_remarks[sid])) if sid in seed_remarks else ''} |")
 out.append("")
 res = json.load(open(os.path.join(V, "sensitivity", "results.json")))
 out.append("### Hand-made changes (`sensitivity/mutants/*.sh`, run by `sensitivity/run.py`)\n")
